@@ -70,6 +70,13 @@ def text_variant(lines, rng, sit, bom=True):
         # every reader; whatever is done with it must not depend on the compression
         lines = ["\ufeff" + lines[0]] + list(lines[1:])
         sit["text_variant_bom"] += 1
+    if lines and rng.random() < 0.12:
+        # records ending in a blank or a TAB (paste / awk pipelines): whatever a command does with the
+        # trailing white space, it must do the same for every compression of the same bytes
+        lines = list(lines)
+        for i in range(0, len(lines), rng.randint(1, 40)):
+            lines[i] = lines[i] + rng.choice([" ", "\t", " \t"])
+        sit["text_variant_trailing_blank"] += 1
     if rng.random() >= 0.3:
         return lines
     kind = rng.choice(["crlf", "utf8", "both"])
@@ -276,17 +283,35 @@ def run_case(ctx, rng, index, casedir):
         w.lines = align_to_64k(text_variant(w.lines, rng, sit), rng, sit)
         cfgs = write_configs(casedir, w.lines, lambda p: w.g.write(p, bo_no=w.tags, rng=rng), rng, sit)
         res, idxres = [], []
+        out_bgzip = rng.random() < 0.5  # the same output mode for every input configuration of the case
+        if out_bgzip:
+            sit["sort_bgzip_output_cases"] += 1
         for label, gaf, gfa in cfgs:
-            out = gaf + ".sorted"
-            o = run_cli(["sort", gaf, gfa, "--outgaf", out])
+            out = gaf + ".sorted" + (".gz" if out_bgzip else "")
+            o = run_cli(["sort", gaf, gfa, "--outgaf", out] + (["--bgzip"] if out_bgzip else []))
             evals += 1
             if not o.ok:
                 res.append((label, f"<{o.brief()}>"))
                 continue
-            text = read_text(out)
-            res.append((label, text))
             with open(out + ".gsi", "rb") as f:
                 gsi = pickle.load(f)
+            if out_bgzip:
+                import gzip
+                with gzip.open(out, "rb") as f:
+                    text = f.read().decode()
+                res.append((label, text))
+                bi = bgzf.BgzfIndex(out)
+                named = {}
+                for c, v in sorted(gsi.items()):
+                    named[c] = []
+                    for vo in v:
+                        l = bi.line_at(vo)
+                        named[c].append(l.split("\t")[0] if l is not None else None)
+                M.hit("gsi_offsets_resolved", 2 * len(gsi))
+                idxres.append((label, named))
+                continue
+            text = read_text(out)
+            res.append((label, text))
             starts = {}
             pos = 0
             for l in text.split("\n")[:-1]:
